@@ -1960,8 +1960,14 @@ class Extractor(object):
                 if it[0] == "local" and len(it) > 3 and isinstance(it[3], tuple) and it[3] and it[3][0] == "comp" \
                         and it[3][1] == "list" and isinstance(s.iter, ast.Name):
                     # names = [y for y in coll if test(y)]; for x in names: ...   (the list is only the loop's iterable)
-                    uses = sum(1 for n_ in ast.walk(self.func) if isinstance(n_, ast.Name) and n_.id == s.iter.id)
-                    if uses == 2:
+                    # (reads of the name: the loop header itself; ``names.append(..)`` / ``names.add(..)`` of the collecting loop
+                    # the comprehension may have been written as do not count)
+                    fills = set(id(n_.func.value) for n_ in ast.walk(self.func) if isinstance(n_, ast.Call)
+                                and isinstance(n_.func, ast.Attribute) and n_.func.attr in ("append", "add")
+                                and isinstance(n_.func.value, ast.Name) and n_.func.value.id == s.iter.id)
+                    reads = sum(1 for n_ in ast.walk(self.func) if isinstance(n_, ast.Name) and n_.id == s.iter.id
+                                and isinstance(n_.ctx, ast.Load) and id(n_) not in fills)
+                    if reads == 1:
                         it = it[3]
                 if it[0] == "comp" and it[1] in ("gen", "list") and len(it[3]) == 1:
                     # for x in (f(y) for y in coll if test(y)):  ==  for y in coll: if not test(y): continue; x = f(y)
